@@ -17,7 +17,7 @@
    last initialize; [mean], [central k], [popvar], [samvar], [skew_b], ... are
    the textbook definitions at the top of TallyProofs.v. *)
 From Coq Require Import ZArith QArith Qminmax List.
-From PV Require Import Stats.Num Stats.Tally Stats.TallyProofs.
+From PV Require Import Stats.Num Stats.Tally Stats.TallyProofs Stats.GenericTotal.
 Import ListNotations.
 Local Open Scope Q_scope.
 
@@ -158,6 +158,30 @@ Theorem C09_confidence_interval_invalid_alpha :
     (forall a : Q, ~ (0 <= a /\ a <= 1) -> g_confidence_interval NQ icdf s (@ANum NQ a) = Raise ValueError).
 Proof. intros sq icdf ops. exact (confidence_interval_invalid_alpha sq icdf ops). Qed.
 Print Assumptions C09_confidence_interval_invalid_alpha.
+
+(* Beyond exact arithmetic: mean, variance, skewness, kurtosis and excess
+   kurtosis are total in EVERY state (reachable or not, any accumulator
+   contents, count below [bound]) of EVERY arithmetic instance that satisfies
+   the elementary order laws [NumLaws] -- each division of the repaired code is
+   guarded by a test 0 < divisor or divides by a small positive integer.  The
+   laws are proved for the rationals; for binary64 they are IEEE-754 facts
+   (small integers exact, sign rules) that are assumed, not proved.  stdev and
+   the confidence interval are not covered by this theorem (their sqrt needs
+   the accumulator M2 >= 0, a rounding fact).                               *)
+Theorem C09_moment_getters_total_for_any_lawful_arithmetic :
+  forall (N : Num) (bound : Z), NumLaws N bound ->
+  forall s : tstate N, (0 <= tn s < bound)%Z ->
+    no_raise (g_mean N s) /\
+    (forall b, no_raise (g_variance N b s)) /\
+    (forall b, no_raise (g_skewness N b s)) /\
+    (forall b, no_raise (g_kurtosis N b s)) /\
+    (forall b, no_raise (g_excess_kurtosis N b s)).
+Proof. exact tally_moment_getters_total_any_state. Qed.
+Print Assumptions C09_moment_getters_total_for_any_lawful_arithmetic.
+
+Theorem C09_laws_hold_in_exact_arithmetic : forall sq bound, NumLaws (NumQ sq) bound.
+Proof. exact NumQ_laws. Qed.
+Print Assumptions C09_laws_hold_in_exact_arithmetic.
 
 (* ---------------------------------------------------------------------- *)
 (* 4. NaN exactly when the statistic is undefined: too few observations or
